@@ -78,7 +78,10 @@ class ConstantExpressionEvaluator:
         ):
             value = self.eval_global_access(declaration)
         else:
-            raise NotImplementedError(str(expr.variable))
+            self.context.error(
+                f"{expr.variable.name} is not a compile time constant",
+                expr.location,
+            )
         return value
 
     def eval_enum(self, declaration):
